@@ -97,6 +97,17 @@ def metamorphic(ctx, tools, programs, n_edits):
             jobs.append({"id": jid, "src": new, "want": WANT, "opts": {"digest": True}})
             meta[jid] = (name, kind, new, base_id)
             jid += 1
+    # operator chains against the grouping written out (the parser's associativity and precedence, level by level)
+    stats["assoc"] = 0
+    for name, chain, grouped in W.assoc_pairs():
+        base_id = jid
+        jobs.append({"id": jid, "src": chain, "want": WANT, "opts": {"digest": True}})
+        meta[jid] = (name, "base", chain, None)
+        jid += 1
+        jobs.append({"id": jid, "src": grouped, "want": WANT, "opts": {"digest": True}})
+        meta[jid] = (name, "assoc", grouped, base_id)
+        jid += 1
+        stats["assoc"] += 1
     # token preservation of re-layouts is decided with the implementation's own lexer
     # (its agreement with the model is checked separately)
     res = nagarun.parallel_batches(tools["nagadrive"], "compile", jobs, per_job_timeout=30.0, chunk=24)
